@@ -321,6 +321,18 @@ func (it *Interp) exec(s ast.Stmt, env *Env) ctrl {
 		} else {
 			it.store(x.X, env, n-1)
 		}
+	case *ast.GoStmt:
+		// the spawned call is evaluated at once: the analyses that use the
+		// interpreter ask what the tasks compute, not how they interleave
+		// (non-interference of concurrently running tasks is C09's subject)
+		fn := it.eval(x.Call.Fun, env)
+		var args []Value
+		for _, a := range x.Call.Args {
+			args = append(args, it.evalCopy(a, env))
+		}
+		saved := it.retVals
+		it.callValue(x, fn, args)
+		it.retVals = saved
 	case *ast.DeferStmt:
 		if it.defers == nil {
 			it.fail(s, "defer outside a function the interpreter entered")
